@@ -209,6 +209,7 @@ Definition verify_tpm (O : oracles) (now : Z) (st : att_stmt) (auth_data cdj cre
   let h := hash_by_alg O att_to_be_signed (alg_int (fld (st_alg st))) in
   need (bytes_eqb (ci_extra_data ci) h) ;;;
   let* ph := tpm_name_hash O pa_raw (pa_name_alg pa) in
+  need (String.eqb (ci_name_alg ci) (pa_name_alg pa)) ;;;
   need (bytes_eqb (ci_name_alg_bytes ci ++ ph) (ci_name ci)) ;;;
   let* c := load_cert O (hd_bytes x5c) in
   verify_or_irr O (c_key c) (fld (st_alg st)) (fld (st_sig st)) ci_raw ;;;
